@@ -30,6 +30,10 @@ def configs(tier):
                 for n2 in range(nmax + 1):
                     if n1 + n2 > tot:
                         continue
+                    if not spike and meas in ("isi", "sync") and n1 + n2 <= 2:
+                        # MRTS='auto' must not depend on where the recording window sits
+                        yield dict(name="%s-%s-shift-auto-%d+%d" % (be, meas, n1, n2), backend=be, meas=meas, tr="shift",
+                                   par="auto", n1=n1, n2=n2, validate=2, cost=30 * 5 ** (n1 + n2))
                     for tr in TRANSFORMS:
                         for par in ("plain", "sym"):
                             if q and tr in ("scale025", "scale3") and (par == "sym" or n1 + n2 > 2 or be == "pyx"):
@@ -86,6 +90,9 @@ def program(E, cfg):
     ft, fp, rev = transform(cfg["tr"], ts, te, E)
     kw = {}
     kw2 = {}
+    if cfg["par"] == "auto":
+        kw["MRTS"] = "auto"
+        kw2["MRTS"] = "auto"
     if cfg["par"] == "sym":
         m = hx.param(E, "m", "pos")
         kw["MRTS"] = m
